@@ -393,3 +393,70 @@ def _g_hh(tier, rnd):
                         for key in ("a", "z"):
                             for n in (1, 7):
                                 yield {"self": r, "args": {"key": key, "hashes": h, "num_els": n}}
+
+
+# ---- expanding / rotating ------------------------------------------------------------------------------------
+def _exp_recipes(cls, tier, rnd, extra=None):
+    for est, fpr in NATURAL_GEOMETRIES[:3]:
+        m = natural_m(est, fpr)
+        import math
+        k = int(round(0.6931471805599453 * m / est))
+        for nops in (0, 1, 2, 3, 5, 8):
+            ops = []
+            for _ in range(nops):
+                r = rnd.random()
+                if r < 0.75:
+                    ops.append(["add_alt", [rnd.randrange(0, 3 * m) for _ in range(k)], rnd.random() < 0.3])
+                elif r < 0.9:
+                    ops.append(["push"])
+                else:
+                    ops.append(["add_alt", [0] * k, True])
+            args = {"est_elements": est, "false_positive_rate": fpr}
+            args.update(extra or {})
+            yield m, k, {"__recipe__": "probables.blooms.expandingbloom." + cls, "args": args, "ops": ops}
+
+
+@gen("ExpandingBloomFilter.add_alt")
+def _g_eb_add(tier, rnd):
+    for m, k, rec in _exp_recipes("ExpandingBloomFilter", tier, rnd):
+        for h in hash_lists(m, k, rnd, 3):
+            for force in (False, True):
+                yield {"self": rec, "args": {"hashes": h, "force": force}}
+
+
+@gen("ExpandingBloomFilter.check_alt")
+def _g_eb_check(tier, rnd):
+    for cls in ("ExpandingBloomFilter", "RotatingBloomFilter"):
+        for m, k, rec in _exp_recipes(cls, tier, rnd, {"max_queue_size": 2} if cls.startswith("Rot") else None):
+            for h in hash_lists(m, k, rnd, 3):
+                yield {"self": rec, "args": {"hashes": h}}
+
+
+@gen("ExpandingBloomFilter.push", "ExpandingBloomFilter.__check_for_growth", "ExpandingBloomFilter.__add_bloom_filter")
+def _g_eb_noargs(tier, rnd):
+    for m, k, rec in _exp_recipes("ExpandingBloomFilter", tier, rnd):
+        yield {"self": rec, "args": {}}
+
+
+@gen("RotatingBloomFilter.add_alt")
+def _g_rb_add(tier, rnd):
+    for q in (1, 2, 3):
+        for m, k, rec in _exp_recipes("RotatingBloomFilter", tier, rnd, {"max_queue_size": q}):
+            for h in hash_lists(m, k, rnd, 2):
+                for force in (False, True):
+                    yield {"self": rec, "args": {"hashes": h, "force": force}}
+
+
+@gen("RotatingBloomFilter.push", "RotatingBloomFilter.pop", "RotatingBloomFilter.__add_bloom_filter")
+def _g_rb_noargs(tier, rnd):
+    for q in (1, 2, 3):
+        for m, k, rec in _exp_recipes("RotatingBloomFilter", tier, rnd, {"max_queue_size": q}):
+            yield {"self": rec, "args": {}}
+
+
+@gen("RotatingBloomFilter.__rotate_bloom_filter")
+def _g_rb_rotate(tier, rnd):
+    for q in (1, 2, 3):
+        for m, k, rec in _exp_recipes("RotatingBloomFilter", tier, rnd, {"max_queue_size": q}):
+            for force in (False, True):
+                yield {"self": rec, "args": {"force": force}}
